@@ -29,6 +29,7 @@ func runC02(c *core.Ctx) {
 	c.Rule("C02.keys", "A7: forkKey is built from the same roles on both sides: forkKeys{Database←dbrp.Database, RetentionPolicy←dbrp.RetentionPolicy, Measurement←measurement} as the full product dbrps×measurements; forkPoint looks up {p.Database(), p.RetentionPolicy(), p.Name()} and the same with Measurement \"\"; Task.Measurements appends the Measurement of every FromNode")
 	c.Rule("C02.collect", "A3/A2: every Collect in forkPoint (and helpers it calls) is on an edge ranged from tm.forks[<one of the two lookup keys>], passes the point itself, and sits in a loop without break/return (an edge error never hides the point from later tasks)")
 	c.Rule("C02.single", "A1: when forkPoint collects from more than one lookup, every loop but the first skips task ids present in the first lookup's map before Collect (a task registered under both keys gets the point once)")
+	c.Rule("C02.startfork", "A2: F69: on every path of StartTask an error return that follows a successful newFork is preceded by delFork (a task that failed to start is not left subscribed to data nobody reads)")
 	c.Rule("C02.register", "A2: newFork registers the task's edge under every key of forkKeys and remembers every key, and the task map published under a key is that key's existing map or one made inside the loop (never shared between keys); delFork visits every remembered key, deletes only the task's own entry, closes (not aborts) the edge at most once and forgets the keys")
 	c.Rule("C02.locks", "A5: tm.forks, taskToForkKeys, forkStats, tasks are accessed only with tm.mu held — in the function itself or, for the helpers documented to need it, at every call site")
 	c.Rule("C02.matches", "A1: FromNode.matches is true iff no configured selector (db, rp, name) differs from the point's and the where-expression is absent or evaluates without error to true")
@@ -41,6 +42,7 @@ func runC02(c *core.Ctx) {
 		return
 	}
 	c02Keys(c, root)
+	c02StartFork(c, root)
 	c02Collect(c, root)
 	c02Register(c, root)
 	c02Locks(c, root)
@@ -894,4 +896,57 @@ func c02Where(c *core.Ctx) {
 		return true
 	})
 	c.Check(first, "C02.where", "FromNode.Where#first", fn.Decl.Pos(), "the first where() must store the given condition")
+}
+
+// c02StartFork: F69. Once StartTask has subscribed the task (newFork put its edge into the fan-out table, or batch collectors were
+// registered), no error return may leave the subscription behind: the edge has no reader, after one buffer of matching points
+// forkPoint blocks in Collect with the read lock held and every task starves. On every path of StartTask, an error return after
+// newFork is preceded by delFork.
+func c02StartFork(c *core.Ctx, root *packages.Package) {
+	fn := c.Need("C02.startfork", "", "TaskMaster", "StartTask")
+	if fn == nil {
+		return
+	}
+	eng := &an.Engine{Prog: c.P,
+		TrackCall: func(call *ast.CallExpr, callee *types.Func) string {
+			if callee != nil && core.RecvTypeName(callee) == "TaskMaster" && (callee.Name() == "newFork" || callee.Name() == "delFork") {
+				return callee.Name()
+			}
+			return ""
+		},
+		Classify: func(a an.Atom) (string, bool) {
+			if k, ok := an.ErrNilAtom(root.TypesInfo, a); ok && strings.Contains(k, ".newFork(") {
+				return "forkerr", true
+			}
+			return "", false
+		}}
+	paths, err := eng.Run(fn)
+	if err != nil {
+		c.Undecided("C02.startfork", "TaskMaster.StartTask", fn.Decl.Pos(), "%v", err)
+		return
+	}
+	good, n := true, 0
+	for _, p := range paths {
+		i := p.Index("newFork")
+		if i < 0 || p.Assign()["forkerr"] {
+			continue // not subscribed (newFork itself failed)
+		}
+		n++
+		if len(p.Rets) == 2 && p.Rets[1] != "nil" {
+			undone := false
+			for _, e := range p.Events[i+1:] {
+				if e.Name == "delFork" {
+					undone = true
+				}
+			}
+			if !undone && good {
+				good = false
+				c.Fail("C02.startfork", "TaskMaster.StartTask#error-after-subscribe", p.RetPos, "StartTask returns the error %s after newFork subscribed the task and does not remove the subscription (path [%s]): the fork edge stays in the fan-out table with nobody reading it — after 1000 matching points forkPoint blocks in Collect holding the read lock, every running task starves and every write blocks for good (a snapshot that fails to load at boot is enough)", p.Rets[1], p.Cond())
+			}
+		}
+	}
+	if good {
+		c.Ok("C02.startfork", "TaskMaster.StartTask#error-after-subscribe")
+	}
+	c.Floor("C02.startfork", "paths of StartTask that subscribe the task", n, 2)
 }
